@@ -2,12 +2,57 @@
 import drivers.c19  # noqa: F401   (registers the drivers)
 
 PROP = "C19"
-LEVEL = "exploration"
-LEVEL_TEXT = "bounded run-time contracts (work in progress)"
-LEVEL_NOTE = "numpy reference"
+LEVEL = "exploration"          # until the E1 (SMT) part is added by the main session
+LEVEL_TEXT = ("Bounded run-time contracts only: every representation a SparseOperatorBuilder / model function / spin-chain "
+              "builder can produce (dense, 7 sparse formats, matvec with and without workers, LinearOperator, MPO, local "
+              "terms, LocalHam, ikron, coupling function, exact evaluation) is compared with an explicit sum of Kronecker "
+              "products of textbook 2x2 (spin-S) matrices written in the driver, on random term lists of up to 7-8 qubits, "
+              "before and after Jordan-Wigner and Pauli rewrites and inside Z2 / U1 / U1xU1 sectors; rank <-> configuration "
+              "maps are checked exhaustively (bijection, exact sector, combinatorial size) for every labelling / ordering "
+              "up to 11 sites. Nothing is proved; the domain is the stated finite one.")
+LEVEL_NOTE = ("Trusted: numpy kron / matmul / einsum-free reshapes of the reference, scipy.sparse toarray, the textbook operator "
+              "conventions stated in drivers/c19.py (Kronecker order = register order, bit 0 = up/empty, '+' = |1><0|, "
+              "Jordan-Wigner z-strings on lower registers), tolerances 1e-10 (double) / 3e-5 (single) relative to max|H|.")
 TECHNIQUE = "run-time contracts on the real functions vs independent numpy references over a stated bounded domain (bounded stand-in)"
-E1 = []
+E1 = []                        # filled later by the main session
 PROVIDERS = []
-TRUSTED = ["numpy / scipy.linalg reference computations"]
-ASSUMPTIONS = []
-EXPLANATION = "wip"
+TRUSTED = [
+    "numpy reference computations (np.kron, matmul, reshape/transpose) and scipy.sparse .toarray()",
+    "textbook single-site matrices and conventions defined in drivers/c19.py (not taken from quimb's _OPMAP)",
+    "HilbertSpace.rank_to_config is used to *enumerate* a sector's basis; that this enumeration is a bijection onto exactly "
+    "the sector is itself under contract (driver ranking-exhaustive), the order of the basis states is not prescribed",
+]
+ASSUMPTIONS = [
+    "domain: <= 7 qubits for random builders (8 for model graphs / state machine, 11 for ranking), <= 7 (9) sites and D^L <= 729 "
+    "for spin chains, localities 0..4, 1..40 terms",
+    "rmatvec / adjoint of aslinearoperator are only required for hermitian operators (documented assumption of quimb)",
+    "matvec with a matrix operand is only required without workers (documented operand: a vector); LinearOperator.matmat is "
+    "required in both modes",
+    "a real dtype is only requested (build_dense(dtype=float..)) when no term can carry a complex coefficient or operator",
+    "sector contracts are stated for operators commuting with the symmetry (constructed so); whether single processed "
+    "terms commute is recorded in params (termwise_symmetric) because the library's sector kernels depend on it",
+    "sector matvec of operators whose single terms leave the sector is evaluated in a forked child without worker threads "
+    "(the njit kernels index out of bounds there)",
+    "LocalHam1D / build_local_ham forms are only required where that class can hold the operator (<= 2-local, every one-site "
+    "term on a site covered by a bond, cyclic chains of length >= 3)",
+    "cyclic chains: H = sum_i h_(i, i+1 mod L) (L = 2 counts the bond twice, as both quimb generators do); ham_j1j2 cyclic "
+    "only for L >= 5, ham_heis_2D cyclic only for lattices >= 3 in both directions (otherwise wrap bonds coincide)",
+    "MBL builders: the random fields are not predicted; required are (a) H - H_Heisenberg is a sum of single-site fields "
+    "along the allowed directions bounded by dh (box / quasi-periodic), (b) MPO, LocalHam1D and matrix forms agree for one seed",
+    "rand_operator: the meaning is taken from its own raw term list (terms_raw); structure (m terms, kmin..k operators "
+    "from ops on distinct sites) is checked separately",
+    "tolerances: 1e-10 * max(1,|H|max) in double precision, 3e-5 in single precision, 1e-8 for the SVD-compressed MPO",
+]
+EXPLANATION = (
+    "E3 (bounded): six drivers. builder-representations: random term lists (all 13 operator names, several operators on one "
+    "site, fermionic strings, repeated / cancelling terms, complex and integer coefficients) x site labellings x orderings "
+    "x {none, Jordan-Wigner, Pauli(y), Pauli(zx)} x construction spellings: processed term list, build_dense, "
+    "build_sparse_matrix in 7 formats and with workers, matvec (4 dtypes, 1-3 workers, out=, matrix operand), "
+    "aslinearoperator (matvec, matmat, rmatvec, adjoint), build_mpo, build_local_terms, build_local_ham, "
+    "build_matrix_ikron (dense / sparse), config_coupling / flatconfig_coupling, evaluate_exact_*, and rebuilds after "
+    "add_term / toggles, each against the explicit Kronecker sum. ranking-exhaustive: every rank of every sector (none, Z2, "
+    "U1, U1U1 with species or explicit blocks) for every labelling / ordering, plus mixed-radix spaces. symmetry-sectors: "
+    "sector matrices / matvec / LinearOperator (default sector, per-call, override) vs the full reference restricted to the "
+    "sector's basis states. model-builders: heisenberg / fermi_hubbard / spinless / rand_operator vs the model formula with "
+    "own Jordan-Wigner strings. spin-chain-builders: MPO_ham_*, ham_1d_*, SpinHam1D vs ham_* generators vs the formula "
+    "with textbook spin-S matrices. mpo-state-machine: dense term sets sharing prefixes / suffixes / coefficients.")
